@@ -129,7 +129,7 @@ def ensure(cfg='full', need_e1=True, log=sys.stderr):
     return facts, (e1 if need_e1 else None)
 
 
-STAGE_SOURCES = {'e1f': ['floatform.py'], 'e1g': ['cmpstage.py'], 'e1h': ['floatform.py', 'digits.py'], 'e1i': ['hour12.py'], 'e1j': ['floatform.py', 'numparse.py'], 'e1k': ['lexaccept.py'], 'e1l': ['weekglue.py']}
+STAGE_SOURCES = {'e1f': ['floatform.py'], 'e1g': ['cmpstage.py'], 'e1h': ['floatform.py', 'digits.py'], 'e1i': ['hour12.py'], 'e1j': ['floatform.py', 'numparse.py'], 'e1k': ['lexaccept.py'], 'e1l': ['weekglue.py'], 'e1m': ['names.py']}
 
 
 def ensure_stage(stage, cfg='full', log=sys.stderr):
@@ -142,7 +142,7 @@ def ensure_stage(stage, cfg='full', log=sys.stderr):
     fcntl.flock(lock, fcntl.LOCK_EX)
     try:
         if not os.path.exists(out):
-            mod = {'e1f': 'sda.floatform', 'e1g': 'sda.cmpstage', 'e1h': 'sda.digits', 'e1i': 'sda.hour12', 'e1j': 'sda.numparse', 'e1k': 'sda.lexaccept', 'e1l': 'sda.weekglue'}[stage]
+            mod = {'e1f': 'sda.floatform', 'e1g': 'sda.cmpstage', 'e1h': 'sda.digits', 'e1i': 'sda.hour12', 'e1j': 'sda.numparse', 'e1k': 'sda.lexaccept', 'e1l': 'sda.weekglue', 'e1m': 'sda.names'}[stage]
             tmp = out + f'.tmp{os.getpid()}'
             r = subprocess.run([sys.executable, '-m', mod, facts, tmp], capture_output=True, text=True, cwd=VERIF)
             if r.returncode != 0 or not os.path.exists(tmp):
